@@ -187,15 +187,15 @@ def r3_tests_after_block(ctx, F):
 def sim_depth_edges(cb):
     """pass/stop edges of the depth test in the simulation loop"""
     b = cb.b
-    stop = []
-    for sw in b.switches:
-        on = sw.on
-        if on.kind == 'bin' and on.key[0] in ('Ge', 'Gt', 'Le', 'Lt'):
-            ops = [noref(b.trace(x, ('NonZero::get',))) for x in on.key[1:]]
-            has_t = any(o.kind == 'arg' and o.key == cb.p_target_depth for o in ops)
-            if has_t:
-                stop += sw.edges_for(True) if on.key[0] in ('Ge', 'Gt') else sw.edges_for(False)
-    return stop
+    from common import edges_where
+
+    def is_target(v):
+        v = noref(b.trace(v, ('NonZero::get',)))
+        return v.kind == 'arg' and v.key == cb.p_target_depth
+
+    def other(v):
+        return not is_target(v)
+    return edges_where(b, other, is_target, 'ge') + edges_where(b, other, is_target, 'gt')
 
 
 def r4_depth_before_eval(ctx, F):
